@@ -162,6 +162,9 @@ def gen_config(rng):
     cfg["max_ops"] = rng.choice([2, 4, 6, 8, 10] if thorough else [2, 3, 4, 6])
     cfg["max_depth"] = 4 if thorough else 3
     cfg["w_with"] = rng.choice([1, 3, 5])
+    # environment fault: the process runs with warnings turned into errors (python -W error), so that a warning
+    # issued in the middle of a selection becomes an exception at that point
+    cfg["warn_error"] = rng.random() < 0.1
     strat = rng.random()
     if strat < 0.1:
         cfg["strategy"] = ["sequential"]
@@ -573,10 +576,15 @@ class Run:
         return fn
 
     def execute(self):
+        import warnings
+
         self.reset()
         for spec in self.rec["threads"]:
             self.sched.add_thread(self.thread_fn(spec), gated=spec.get("gated", False))
-        self.sched.run()
+        with warnings.catch_warnings():  # process-global filter, installed by the controller around the whole run
+            if self.cfg.get("warn_error"):
+                warnings.simplefilter("error")
+            self.sched.run()
         for h in self.history:
             if h["ret"] is None:
                 raise HarnessError("operation never returned: %r" % (h,))
